@@ -52,7 +52,11 @@ fn payload(cap: usize) -> impl Strategy<Value = Payload> {
 
 fn spec() -> impl Strategy<Value = Spec> {
     (
-        prop_oneof![3 => Just(Cipher::Salsa20), 1 => Just(Cipher::Arc4)],
+        prop_oneof![
+            18 => Just(Cipher::Salsa20),
+            6 => Just(Cipher::Arc4),
+            1 => proptest::sample::select(vec![b's', b'a', 0u8, b'E', b'N', b'Z', 0xffu8, b'S', b'A']).prop_map(Cipher::Other),
+        ],
         any::<u16>(),
         prop_oneof![1 => Just([0u8; 4]), 1 => Just([0xffu8; 4]), 4 => any::<[u8; 4]>()],
     )
@@ -339,5 +343,59 @@ fn main() {
     ck.run(
         Section::pbt("free-constructors", tier.pick(6_000, 100_000), move || free(cap).boxed(), move |c: &FreeCase| check_free(c, &k2)).shards(8),
     );
+    // Large, highly compressible chunks: deflate reaches ~1030:1 and LZ4 ~250:1 on constant data, which
+    // only shows with chunks far above the 256 KiB default. Deterministic grid, both tiers.
+    let big_cap = 8 * 1024 * 1024;
+    let k3 = known.clone();
+    ck.run(
+        Section::enumerate(
+            "large-compressible-free",
+            "grid: BlteFile::single_chunk and BlteFile::compress(chunk 16 MiB) of 300 KiB, 700 KiB, 1 MiB, 1 MiB + 1, 4 MiB and 8 MiB of one repeated byte / a short repeating pattern, modes Z and LZ4",
+            move || Box::new(big_payloads().into_iter().flat_map(move |(payload, mode)| {
+                [
+                    FreeCase { cap: big_cap, call: Free::Single { payload: payload.clone(), mode } },
+                    FreeCase { cap: big_cap, call: Free::Compress { payload, chunk_size: 16 * 1024 * 1024, mode } },
+                ]
+            })),
+            move |c: &FreeCase| check_free(c, &k3),
+        )
+        .shards(8),
+    );
+    let k4 = known.clone();
+    ck.run(
+        Section::enumerate(
+            "large-compressible-builder",
+            "grid: the same payloads through BlteBuilder with chunk size 16 MiB: add_data plain, add_data under with_encryption (Salsa20 / ARC4, compressed inner block), add_encrypted_data, and followed by a second small add_data",
+            move || Box::new(big_payloads().into_iter().flat_map(move |(payload, mode)| {
+                let keys = vec![KeyEntry { name: 0x1122_3344_5566_7788, key: [7u8; 16] }];
+                let spec = |cipher| Spec { cipher, key_ix: 0, iv: [1, 2, 3, 4] };
+                let small = Payload { len: Len::Abs(100), class: PClass::Random, content_seed: 5 };
+                let head = vec![Op::ChunkSize(16 * 1024 * 1024), Op::Compression(mode)];
+                let mk = |tail: Vec<Op>| Program { keys: keys.clone(), builtin_store: false, cap: big_cap, ops: head.iter().cloned().chain(tail).collect() };
+                vec![
+                    mk(vec![Op::AddData(payload.clone())]),
+                    mk(vec![Op::Encryption(spec(Cipher::Salsa20)), Op::AddData(payload.clone())]),
+                    mk(vec![Op::Encryption(spec(Cipher::Arc4)), Op::AddData(payload.clone())]),
+                    mk(vec![Op::AddEncrypted(payload.clone(), spec(Cipher::Salsa20))]),
+                    mk(vec![Op::AddData(payload.clone()), Op::AddData(small.clone())]),
+                    mk(vec![Op::AddData(small), Op::AddMixed(payload, Some(spec(Cipher::Salsa20)))]),
+                ]
+            })),
+            move |p: &Program| check_program(p, &k4),
+        )
+        .shards(8),
+    );
     ck.finish();
+}
+
+fn big_payloads() -> Vec<(Payload, M)> {
+    let mut v = Vec::new();
+    for n in [300 * 1024, 700 * 1024, 1024 * 1024, 1024 * 1024 + 1, 4 * 1024 * 1024, 8 * 1024 * 1024] {
+        for class in [PClass::Run, PClass::Pattern] {
+            for (i, mode) in [M::Z, M::L4].into_iter().enumerate() {
+                v.push((Payload { len: Len::Abs(n), class, content_seed: (n as u64) ^ (i as u64) }, mode));
+            }
+        }
+    }
+    v
 }
